@@ -179,6 +179,7 @@ def check(ck: Checker) -> None:
     from . import round7 as _r7
 
     _r7.collect_every_entry(ck, "C04.push")
+    _r7.on_error_names_oid(ck, "C04.onerror")
     from . import round4 as _r4
 
     _r4.hashinfo_identity(ck, "C04.guard")
